@@ -244,7 +244,23 @@ def eval_text(nf, variant, env, D):
     """Text the writer produces for a move of this kind under concrete field values (case folding), or None."""
     a = {("var", "self"): ("variant", MV + variant)}
     a.update(env)
-    v = hir.fold(nf, a, D)
+    from .common import chess_evalcalls
+    ev = chess_evalcalls(None, {})
+    v = hir.fold(nf, a, D, None, ev)
+    # a field read that was reached through a `match self { .. => self.f }` now reads `<variant>.f`: the same field of the same
+    # value the assumptions are stated on
+    SELFV = ("variant", MV + variant)
+
+    def back(t):
+        if not isinstance(t, tuple) or isinstance(t, hir.PK):
+            return t
+        if t == SELFV:
+            return ("var", "self")
+        return tuple(back(x) if isinstance(x, tuple) else x for x in t)
+    for _ in range(2):
+        if isinstance(v, tuple) and v and v[0] == "str" and all(p_[0] in ("ch", "s") and p_[1][0] == "lit" for p_ in v[1:]):
+            break
+        v = hir.fold(back(v), env, D, None, ev)
     if not (isinstance(v, tuple) and v and v[0] == "str"):
         return None
     out = ""
